@@ -4,8 +4,9 @@
    sequence's parts to the destination (Model/Writer.v: stream_one) and calls Encoder.reset.  What reset clears is read from
    the source (gen/DecoderReset.v: enc_reset_ flags), as is the fact that SequenceCompleted calls it.
    SequenceCompleted without any WriteMessage before it is the empty sequence: refused, like encode_fit refuses an empty message
-   list (since fix 2690f88 the source does so; the harness drives such calls before, between and after sequences and compares
-   the answer and the destination).  Outside this model: going on after a failed WriteMessage. *)
+   list (since fix 2690f88 the source does so: gen/DecoderReset.v stream_completed_rejects_empty is read from SequenceCompleted on
+   every run and is a premise of the stream theorems, Proofs/StreamProofs.v reset_complete; the harness drives such calls
+   before, between and after sequences and compares the answer and the destination).  Outside this model: going on after a failed WriteMessage. *)
 From Coq Require Import NArith List Bool.
 Import ListNotations.
 From Fit Require Export Model.Encoder.
